@@ -72,9 +72,26 @@ static void check_any_call(InstId inst_id, uint32_t allowed0, uint32_t allowed1,
   a->_inst_options = opts;
   if (nondet_bool()) { a->_extra_reg._signature._bits = nondet_u32(); a->_extra_reg._id = nondet_u32(); }
   if (nondet_bool()) a->_inline_comment = "c";
+  // inputs that no instruction can accept (whatever the instruction): they must be refused
+  bool must_refuse = false; uint32_t why = 0;
+  const Operand_* ops3[3] = { &o0, &o1, &o2 };
+  for (int i = 0; i < 3; i++) {
+    const Operand_& o = *ops3[i];
+    if (o.is_reg() && o.id() >= 32) { must_refuse = true; why |= 1; }                                     // no physical register has such an id; virtual ids are illegal for an assembler
+    if (o.is_mem()) {
+      const x86::Mem& m = o.as<x86::Mem>();
+      if (m.segment_id() > 6) { must_refuse = true; why |= 2; }                                            // es..gs are 1..6
+      if (m.has_base_label() && m.base_id() >= holder()->_label_entries._size) { must_refuse = true; why |= 4; }   // label that does not exist
+      if (m.has_base_reg() && !m.is_reg_home() && m.base_id() >= 32) { must_refuse = true; why |= 8; }
+    }
+    if (o.is_label() && o.id() >= holder()->_label_entries._size) { must_refuse = true; why |= 16; }
+    // an operand after a none operand is never looked at by some encoders: only the leading run counts
+    if (o.is_none()) break;
+  }
   Error e = a->x86::Assembler::_emit(inst_id, o0, o1, o2, ext);
   size_t n = emitted();
-  verif_observe(uint32_t(e)); verif_observe(n);
+  verif_observe(uint32_t(e)); verif_observe(n); verif_observe(why);
+  if (must_refuse) V_ASSERT(e != Error::kOk, "invalid register id, segment id or label id is refused");
   if (e != Error::kOk) {
     V_ASSERT(n == 0, "failed call appends nothing (cursor unchanged)");
     V_ASSERT(text()->_buffer._size == 0, "failed call leaves the section size unchanged");
